@@ -380,7 +380,7 @@ class dns(packet_base):
             # check whether we have an internal pointer
             if (chunk_size & 0xc0) == 0xc0:
                 # pull out offset from last 14 bits
-                offset = ((l[index] & 0x3) << 8 ) | l[index+1]
+                offset = ((l[index] & 0x3f) << 8 ) | l[index+1]
                 cls._read_dns_name_from_index(l, offset, retlist)
                 index += 1
                 break
